@@ -39,7 +39,7 @@ func (s upStep) String() string {
 		return fmt.Sprintf("drop#%d", s.Cand)
 	case "heldProbeBurst":
 		return fmt.Sprintf("heldProbeBurst(%s,probe+%s+upgrade)", s.Tr, s.Pkt)
-	case "conformant", "probeEarly", "conformantSendAtTick":
+	case "conformant", "probeEarly", "conformantSendAtTick", "conformantSecondDuringSwitch":
 		return fmt.Sprintf("%s(%s,repoll=%d)", s.Kind, s.Tr, s.N)
 	case "conformantLatePoll":
 		return fmt.Sprintf("conformantLatePoll(%s,+%v,repoll=%d)", s.Tr, s.D, s.N)
@@ -53,6 +53,7 @@ func (s upStep) String() string {
 
 type upCase struct {
 	Rev   int
+	PMD   int // perMessageDeflate: -1 not configured, else threshold
 	Steps []upStep
 }
 
@@ -61,13 +62,14 @@ func genC08(rt *rapid.T, gates bool, knownProbe bool, col *Collector) upCase {
 	if rapid.IntRange(0, 3).Draw(rt, "rev3") == 0 {
 		c.Rev = 3
 	}
+	c.PMD = rapid.SampledFrom([]int{-1, -1, 0, 1024}).Draw(rt, "perMessageDeflate")
 	n := rapid.IntRange(2, 12).Draw(rt, "nsteps")
 	ncand := 0
 	for i := 0; i < n; i++ {
 		l := fmt.Sprintf("s%d", i)
 		kinds := []string{"open", "open", "open", "send", "clientMsg", "poll", "advance"}
 		if rapid.IntRange(0, 7).Draw(rt, l+".conf") == 0 {
-			kinds = append(kinds, "conformant", "conformantLatePoll", "conformantSendAtTick")
+			kinds = append(kinds, "conformant", "conformantLatePoll", "conformantSendAtTick", "conformantSecondDuringSwitch")
 		}
 		if gates {
 			kinds = append(kinds, "heldProbeBurst")
@@ -110,7 +112,7 @@ func genC08(rt *rapid.T, gates bool, knownProbe bool, col *Collector) upCase {
 			st.Tr = rapid.SampledFrom(trs).Draw(rt, l+".tr")
 			st.Pkt = rapid.SampledFrom([]string{"pingOther", "pong", "message", "noop", "garbage"}).Draw(rt, l+".burst")
 			ncand++
-		case "conformant", "probeEarly", "conformantLatePoll", "conformantSendAtTick":
+		case "conformant", "probeEarly", "conformantLatePoll", "conformantSendAtTick", "conformantSecondDuringSwitch":
 			st.Tr = rapid.SampledFrom(trs).Draw(rt, l+".tr")
 			st.D = time.Duration(rapid.SampledFrom([]int{0, 50, 100, 150, 250, 1000}).Draw(rt, l+".late")) * time.Millisecond
 			st.N = rapid.SampledFrom([]int{0, 0, 1, 2}).Draw(rt, l+".repoll")
@@ -337,6 +339,10 @@ func runC08(c upCase) (fail string, stats map[string]bool) {
 	o.SetPingInterval(10 * time.Minute)
 	o.SetPingTimeout(10 * time.Minute)
 	o.SetUpgradeTimeout(upTimeout)
+	if c.PMD >= 0 {
+		o.SetPerMessageDeflate(&types.PerMessageDeflate{Threshold: c.PMD})
+		stats["perMessageDeflate-configured"] = true
+	}
 	w := NewWorld(o)
 	defer w.Teardown()
 	eio := "4"
@@ -385,6 +391,10 @@ func runC08(c upCase) (fail string, stats map[string]bool) {
 	rePolls := 0
 	// a slow application flush listener (armed by conformantSendAtTick): the session's flush holds its lock longer
 	lingerFlush, sendAtTick := false, false
+	// armed by conformantSecondDuringSwitch: while an application 'upgrade' listener is still running (the switch
+	// is in progress on the candidate's reader goroutine) another candidate for the same session connects and probes
+	secondDuringSwitch := false
+	var intruder *upCand
 	uw.sr.Sock.On("flush", func(...any) {
 		if lingerFlush {
 			linger()
@@ -515,8 +525,31 @@ func runC08(c upCase) (fail string, stats map[string]bool) {
 				return f
 			}
 		}
+		if secondDuringSwitch {
+			secondDuringSwitch = false
+			uw.sr.Sock.Once("upgrade", func(...any) {
+				c2 := &upCand{tr: "websocket", own: true, openedAt: w.now()}
+				c2.wc = &WSClient{W: w, O: ClientOpts{Rev: uw.c.Rev, EIO: eio}, Sid: pc.Sid}
+				c2.wc.Start()
+				linger()
+				c2.wc.Pump()
+				c2.send(ctlD(tPing, "probe"))
+				linger()
+				intruder = c2
+			})
+		}
 		cand.send(ctl(tUpgrade))
 		Settle()
+		if intruder != nil {
+			stats["second-candidate-during-the-switch"] = true
+			uw.cands = append(uw.cands, intruder)
+			for _, p := range intruder.recv() {
+				if p.Type == tPong {
+					return fmt.Sprintf("conformant %s candidate: a second candidate that connected while the switch was in progress (inside an application 'upgrade' listener) was entertained: it got a probe pong", tr)
+				}
+			}
+			intruder = nil
+		}
 		cand.isUp = true
 		uw.cur = cand
 		uw.upgrading = nil
@@ -548,6 +581,12 @@ func runC08(c upCase) (fail string, stats map[string]bool) {
 			if f := conformant(st.Tr, true); f != "" {
 				return what + ": " + f, stats
 			}
+		case "conformantSecondDuringSwitch":
+			rePolls, secondDuringSwitch = st.N, true
+			if f := conformant(st.Tr, false); f != "" {
+				return what + ": " + f, stats
+			}
+			secondDuringSwitch = false
 		case "conformantSendAtTick":
 			rePolls, sendAtTick = st.N, true
 			if f := conformant(st.Tr, false); f != "" {
@@ -848,7 +887,7 @@ func TestC08Upgrade(t *testing.T) {
 	if !knownProbe {
 		req = append(req, "probe-before-listeners")
 	}
-	req = append(req, "burst-while-probe-pong-is-being-written")
+	req = append(req, "burst-while-probe-pong-is-being-written", "second-candidate-during-the-switch", "perMessageDeflate-configured")
 	col.RequireClasses(t, req...)
 }
 
